@@ -106,6 +106,10 @@ theorem recreate_spec (p : Policy) (skip : List String) (ok : Nat → Prop) :
     simp only [recreate]
     by_cases hr : p.recreated kd = true
     · simp only [hr, ↓reduceIte]
+      by_cases hd : (decide (kd = .dictsub) && !p.subContent) = true
+      · simp only [hd, ↓reduceIte]
+        exact ⟨Own_node.mpr ⟨fun _ => hf _ (Nat.le_refl _), OwnK_nil p ok⟩, by omega⟩
+      simp only [hd, Bool.false_eq_true, ↓reduceIte]
       have hs' : ∀ i ∈ sharedMutK p kids, ok i := by
         intro j hj; apply hs; simp only [sharedMut, hr, if_true]; exact hj
       have ih := recreateK_spec p skip ok kids k hs' hf
@@ -348,7 +352,9 @@ theorem specCount_recreate_indep (p : Policy) (skip : List String) :
   | .node kd i kids, k, k' => by
     simp only [recreate]
     by_cases hr : p.recreated kd = true
-    · simp only [hr, ↓reduceIte, specCount]
+    · by_cases hd : (decide (kd = .dictsub) && !p.subContent) = true
+      · simp only [hr, hd, ↓reduceIte, specCount]
+      simp only [hr, hd, Bool.false_eq_true, ↓reduceIte, specCount]
       rw [specCountK_recreate_indep p skip kids k k', isSpec_keys kd _ _ (recreateK_keys_indep p skip kids k k')]
     · simp only [hr, Bool.false_eq_true, ↓reduceIte]
 theorem specCountK_recreate_indep (p : Policy) (skip : List String) :
@@ -371,21 +377,21 @@ theorem specCount_stripMeta (p : Policy) (mkeys : List String) (t : T) (k k' : N
   · exact specCount_recreate_indep p mkeys t k k'
 
 mutual
-theorem specCount_recreate (p : Policy) :
+theorem specCount_recreate (p : Policy) (hsc : p.subContent = true) :
     ∀ (t : T) (k : Nat), specCount p (recreate p [] t k).val = specCount p t
   | .atom _, _ => by simp [recreate]
   | .node kd i kids, k => by
     simp only [recreate]
     by_cases hr : p.recreated kd = true
-    · simp only [hr, ↓reduceIte, specCount]
-      rw [specCountK_recreate p kids k, isSpec_keys kd _ _ (recreateK_keys_nil p kids k)]
+    · simp only [hr, hsc, Bool.not_true, Bool.and_false, Bool.false_eq_true, ↓reduceIte, specCount]
+      rw [specCountK_recreate p hsc kids k, isSpec_keys kd _ _ (recreateK_keys_nil p kids k)]
     · simp only [hr, Bool.false_eq_true, ↓reduceIte]
-theorem specCountK_recreate (p : Policy) :
+theorem specCountK_recreate (p : Policy) (hsc : p.subContent = true) :
     ∀ (ts : Kids) (k : Nat), specCountK p (recreateK p [] ts k).val = specCountK p ts
   | [], _ => by simp [recreateK]
   | (key, x) :: r, k => by
     simp only [recreateK, List.contains_nil, Bool.false_eq_true, ↓reduceIte, specCountK]
-    rw [specCount_recreate p x k, specCountK_recreate p r _]
+    rw [specCount_recreate p hsc x k, specCountK_recreate p hsc r _]
 end
 
 end Jap.Heap
